@@ -1,4 +1,4 @@
-import Log4rsModel.Json.LemmasLine
+import Log4rsModel.Json.LemmasHist
 /-
 C12 — JSON encoder: one record, one line, and the fields round-trip exactly.
 Only property theorems and non-vacuity examples live here; helpers are in Json/Lemmas*.lean.
@@ -80,6 +80,63 @@ theorem C12_level_names (l : Level) :
     implementation's output. -/
 theorem C12_model_satisfies_spec (env : Env) (r : Record) : specLine env r (jsonLine env r) = .ok := by
   simp [specLine, C12_one_line_check, readLineMembers_jsonLine, toFields_membersOf, fieldsOf]
+
+/-- History independence (the sequence-level law): for every history of encodes on one thread with
+    one encoder — whatever the earlier steps were and however they ended (writer error after any
+    number of bytes, failing `Display`, success) — every step's result is what the same step yields on
+    its own; every successful step returns `Ok` and delivers exactly its own record's line; hence the
+    outputs of the successful steps are `jsonLine` mapped over them.  (Immediate in the model, where
+    the encoder carries the empty state; stated so that the claim and its tie to the code — the
+    `seq` cases of the correspondence check — are visible.) -/
+theorem C12_history_independent (steps : List Step) :
+    (∀ (before after : List Step) (s : Step), steps = before ++ s :: after →
+        (runHistory {} steps)[before.length]? = some (encodeStep {} s).2) ∧
+    (∀ (before after : List Step) (s : Step), steps = before ++ s :: after → succeeds s = true →
+        (runHistory {} steps)[before.length]?
+          = some { kind := .ok, received := utf8 (jsonLine s.env s.record) }) ∧
+    ((steps.zip (runHistory {} steps)).filter (fun p => succeeds p.1)).map (·.2.received)
+      = (steps.filter succeeds).map (fun s => utf8 (jsonLine s.env s.record)) := by
+  have hat : ∀ (before after : List Step) (s : Step), steps = before ++ s :: after →
+      (runHistory {} steps)[before.length]? = some (encodeStep {} s).2 := by
+    intro before after s h
+    subst h
+    simp [runHistory_eq_map]
+  refine ⟨hat, ?_, ?_⟩
+  · intro before after s h hs
+    rw [hat before after s h]
+    have hk := kind_of_succeeds s hs
+    have hr : (encodeStep {} s).2.received = utf8 (jsonLine s.env s.record) := received_of_succeeds s hs
+    cases hres : (encodeStep {} s).2 with
+    | mk kind received =>
+      rw [hres] at hk hr
+      simp only at hk hr
+      rw [hk, hr]
+  · rw [runHistory_eq_map]
+    induction steps with
+    | nil => rfl
+    | cons s rest ih =>
+      have ih' := ih (by
+        intro before after s' h
+        subst h
+        simp [runHistory_eq_map])
+      simp only [List.map_cons, List.zip_cons_cons, List.filter_cons]
+      by_cases hs : succeeds s = true
+      · have hr : (encodeStep {} s).2.received = utf8 (jsonLine s.env s.record) := received_of_succeeds s hs
+        simp only [hs, if_true, List.map_cons, hr]
+        rw [ih']
+      · simp only [hs, Bool.false_eq_true, if_false]
+        exact ih'
+
+/-- An encode that is cut short (writer error after `k` bytes, or a `Display` that gives up after
+    `n` characters, or both) has delivered a prefix of its own record's line, no longer than the writer
+    allowed; the executable clause used on the implementation's bytes accepts the model's bytes. -/
+theorem C12_cut_output_is_prefix (s : Step) :
+    received s <+: utf8 (jsonLine s.env s.record) ∧
+    (∀ k, s.writer = .failAfter k → (received s).length ≤ k) ∧
+    specCutStep s (received s) = true := by
+  refine ⟨received_prefix s, ?_, specCutStep_received s⟩
+  intro k hk
+  simp [received, hk, List.length_take, Nat.min_le_left]
 
 /-! ### non-vacuity / sanity examples (tests on samples, not proofs of the property) -/
 
@@ -178,5 +235,21 @@ def lineForged : List Char :=
     'l', 'l', ',', '"', 't', 'h', 'r', 'e', 'a', 'd', '_', 'i', 'd', '"', ':', '7', ',', '"', 'm',
     'd', 'c', '"', ':', '{', '}', '}', '\n']
 example : specLine env0 r0 lineForged = .fail "not-one-line" := by decide +kernel
+
+/-- a history: a record cut inside its message, one whose `Display` gives up, then a good one -/
+def hist0 : List Step :=
+  [ { env := env0, record := r0, writer := .failAfter 50, displayFails := none },
+    { env := env0, record := r0, writer := .acceptAll, displayFails := some 2 },
+    { env := env0, record := r0, writer := .acceptAll, displayFails := none } ]
+
+example : (runHistory {} hist0).map (·.kind) = [.ioErr, .displayFailed, .ok] := by
+  simp [hist0, runHistory, encodeStep, writerHolds, intended]
+  decide +kernel
+
+/-- what a leaking scratch buffer would emit for the third step (message = earlier text + own text)
+    is rejected for that step's record -/
+example : specLine env0 r0 (jsonLine env0 { r0 with message := r0.message ++ r0.message }) = .fail "message" := by
+  simp only [specLine, C12_one_line_check, readLineMembers_jsonLine, toFields_membersOf]
+  decide +kernel
 
 end Log4rs.Json
